@@ -78,4 +78,37 @@ theorem scoped_good_aux :
   all_goals (try (simp only [Good]; done))
   all_goals (try grind [Good])
 
+/-- the chunk of a recorded block has positive `Iterate` operands -/
+def BlkIter (ev : Event) : Prop :=
+  match ev with
+  | .blockDef _ c _ => AllC IterOK c
+  | _ => True
+
+theorem blocks_iter_aux :
+    (∀ il d e, AllE BlkIter (exprEvents il d e)) ∧
+    (∀ il d ns, AllE BlkIter (nodesEvents il d ns)) ∧
+    (∀ il d n, AllE BlkIter (nodeEvents il d n)) ∧
+    (∀ il d k, AllE BlkIter (kwargsEvents il d k)) ∧
+    (∀ il d f, AllE BlkIter (filtersEvents il d f)) ∧
+    (∀ il d o, AllE BlkIter (optExprEvents il d o)) ∧
+    (∀ il d a, AllE BlkIter (arrayItemsEvents il d a)) ∧
+    (∀ il d m, AllE BlkIter (mapItemsEvents il d m)) := by
+  apply exprEvents.mutual_induct
+    (motive_1 := fun il d e => AllE BlkIter (exprEvents il d e))
+    (motive_2 := fun il d ns => AllE BlkIter (nodesEvents il d ns))
+    (motive_3 := fun il d n => AllE BlkIter (nodeEvents il d n))
+    (motive_4 := fun il d k => AllE BlkIter (kwargsEvents il d k))
+    (motive_5 := fun il d f => AllE BlkIter (filtersEvents il d f))
+    (motive_6 := fun il d o => AllE BlkIter (optExprEvents il d o))
+    (motive_7 := fun il d a => AllE BlkIter (arrayItemsEvents il d a))
+    (motive_8 := fun il d m => AllE BlkIter (mapItemsEvents il d m))
+  all_goals intros
+  all_goals simp only [exprEvents, nodesEvents, nodeEvents, kwargsEvents, filtersEvents,
+    optExprEvents, arrayItemsEvents, mapItemsEvents] at *
+  all_goals (try split)
+  all_goals (try simp_all (config := { zetaDelta := true }) only [allE_append, allE_cons, allE_nil,
+    and_true, true_and, and_self])
+  all_goals (try (simp only [BlkIter]; done))
+  all_goals (try grind [BlkIter, iter_nodes])
+
 end Tera.Compiler
